@@ -79,8 +79,27 @@ def mk_sig(n, body, typ):
     return h
 
 
-def fold_obs(shapes, typ, tname, timeout):
+def mk_fold_h(body, n):
+    U = Optional[int]
+    if n == 1:
+        def h(v0: U, tp: int) -> bool: return body((v0,), tp)
+    elif n == 2:
+        def h(v0: U, v1: U, tp: int) -> bool: return body((v0, v1), tp)
+    elif n == 3:
+        def h(v0: U, v1: U, v2: U, tp: int) -> bool: return body((v0, v1, v2), tp)
+    elif n == 4:
+        def h(v0: U, v1: U, v2: U, v3: U, tp: int) -> bool: return body((v0, v1, v2, v3), tp)
+    elif n == 6:
+        def h(v0: U, v1: U, v2: U, v3: U, v4: U, v5: U, tp: int) -> bool: return body((v0, v1, v2, v3, v4, v5), tp)
+    else:
+        return None
+    return h
+
+
+def fold_obs(shapes, timeout, with_order=True):
+    """Cells Optional[int]; one non-numeric text cell ("ab") at a symbolic position tp (tp = -1: none)."""
     obs = []
+    U = Optional[int]
     for nr, nc in shapes:
         addrs = rect(nr, nc)
         flat = [a for row in addrs for a in row]
@@ -92,7 +111,11 @@ def fold_obs(shapes, typ, tname, timeout):
         M = mk(cells)
 
         def mk_body(M, flat, n):
-            def body(vs):
+            def body(vs, tp):
+                tp = concretize(tp, -1, n - 1)
+                vs = list(vs)
+                if tp >= 0:
+                    vs[tp] = 'ab'
                 for a, v in zip(flat, vs):
                     setv(M, 'Sheet1!' + a, v)
                 ev = Evaluator(M)
@@ -107,6 +130,8 @@ def fold_obs(shapes, typ, tname, timeout):
                     return False
                 if nval(ev.evaluate('Sheet1!Z9')) != len(xs) + 1:
                     return False
+                if not with_order:
+                    return True
                 mx = nval(ev.evaluate('Sheet1!Z8'))
                 exp_mx = 7
                 for x in xs:
@@ -126,98 +151,119 @@ def fold_obs(shapes, typ, tname, timeout):
                         return False
                     a = nval(avg)
                     return lo <= a <= hi
-                # no number at all: MIN/MAX/AVERAGE must not raise (0 like Excel's MIN/MAX)
+                # no number at all: MIN/MAX must not raise (0, as in Excel)
                 return nval(ev.evaluate('Sheet1!Z3')) == 0 and nval(ev.evaluate('Sheet1!Z4')) == 0
             return body
-        h = mk_sig(n, mk_body(M, flat, n), typ)
-
-        def pre(*vs):
-            for v in vs:
-                if not nonnum_text(v):
-                    return False
-            return True
-        wit = [tuple(range(1, n + 1)), tuple([None] * n), tuple([(None if i % 3 == 1 else ('ab' if (i % 3 == 2 and typ is CV) else i - 2)) for i in range(n)])]
-        obs.append(Ob(f'c14.fold[{nr}x{nc},{tname}]', h, pre=pre, witness=wit, timeout=timeout, cost=(3 if typ is CV else 2) ** n, family='c14.fold',
-                      bounds=f'rectangle {nr}x{nc}, every cell {tname} (pattern by forking; ints unbounded; text non-numeric, length <= 2): SUM, AVERAGE (cross-multiplied), MIN, MAX, COUNT, COUNTA, '
-                             'mixed with scalar arguments; MIN <= AVERAGE <= MAX',
-                      show=lambda *vs, rng=rng: f'{rng} = {vs!r}'))
+        h = mk_fold_h(mk_body(M, flat, n), n)
+        if h is None:
+            continue
+        wit = [tuple(range(1, n + 1)) + (-1,), tuple([None] * n) + (-1,), tuple([(None if i % 2 else i - 1) for i in range(n)]) + (0,), tuple(range(1, n + 1)) + (n - 1,)]
+        obs.append(Ob(f'c14.fold[{nr}x{nc}' + ('' if with_order else ',sum+count') + ']', h, pre=lambda *a, n=n: -1 <= a[-1] < n, witness=wit, timeout=timeout,
+                      cost=(2 ** n) * (n + 1) * (3 if with_order else 1), family='c14.fold',
+                      bounds=f'rectangle {nr}x{nc}, every cell Optional[int] (blank pattern by forking; ints unbounded) and a non-numeric text cell at any one position or none (forked): '
+                             + ('SUM, AVERAGE (cross-multiplied), MIN, MAX, COUNT, COUNTA, mixed with scalar arguments; MIN <= AVERAGE <= MAX' if with_order else 'SUM, COUNT, COUNTA, mixed with scalar arguments'),
+                      show=lambda *a, rng=rng: f'{rng} = {a[:-1]!r}, text cell at position {a[-1]}'))
     return obs
 
 
-def split_obs(timeout):
+def split_obs(timeout, thorough):
     """SUM additive over every split of a rectangle into two sub-ranges; argument order; content permutation."""
     obs = []
-    addrs = rect(2, 3)
-    flat = [a for row in addrs for a in row]
+    U = Optional[int]
+    flat = ['A1', 'B1', 'A2', 'B2']
     cells = {a: 1 for a in flat}
-    splits = {'rows': ('A1:C1', 'A2:C2'), 'cols1': ('A1:A2', 'B1:C2'), 'cols2': ('A1:B2', 'C1:C2')}
+    splits = {'rows': ('A1:B1', 'A2:B2'), 'cols': ('A1:A2', 'B1:B2')}
     k = 1
-    names = {}
     for nm, (p, q_) in splits.items():
         cells[f'Z{k}'] = f'=SUM({p})+SUM({q_})'
         cells[f'Y{k}'] = f'=SUM({q_},{p})'
         cells[f'X{k}'] = f'=COUNT({p},{q_})'
         cells[f'W{k}'] = f'=MAX({q_},{p})'
         cells[f'V{k}'] = f'=MIN({p},{q_})'
-        names[nm] = k
+        cells[f'U{k}'] = f'=AVERAGE({q_},{p})'
         k += 1
-    cells['T1'] = '=SUM(A1:C2)'
-    cells['T2'] = '=SUM(C2,B2,A2,C1,B1,A1)'
-    cells['T3'] = '=MAX(A1:C2)'
-    cells['T4'] = '=MIN(A1:C2)'
-    cells['T5'] = '=COUNT(A1:C2)'
-    cells['T6'] = '=AVERAGE(A1:C2)'
-    cells['T7'] = '=AVERAGE(C1:C2,A1:B2)'
+    cells.update({'T1': '=SUM(A1:B2)', 'T2': '=SUM(B2,A2,B1,A1)', 'T3': '=MAX(A1:B2)', 'T4': '=MIN(A1:B2)', 'T5': '=COUNT(A1:B2)', 'T6': '=AVERAGE(A1:B2)',
+                  'T7': '=MAX(B2,A1:A2,B1)', 'T8': '=AVERAGE(A1,B1,A2,B2)'})
     M = mk(cells)
-    U = Optional[int]
 
-    def body(vs):
-        for a, v in zip(flat, vs):
-            setv(M, 'Sheet1!' + a, v)
-        ev = Evaluator(M)
-        tot = ev.evaluate('Sheet1!T1')
-        xs = ints(vs)
-        if not num_is(tot, sum(xs)) or not num_is(ev.evaluate('Sheet1!T2'), sum(xs)):
-            return False
-        mx, mn, cnt = nval(ev.evaluate('Sheet1!T3')), nval(ev.evaluate('Sheet1!T4')), nval(ev.evaluate('Sheet1!T5'))
-        for kk in (1, 2, 3):
-            if not (same(ev.evaluate(f'Sheet1!Z{kk}'), tot) or num_is(ev.evaluate(f'Sheet1!Z{kk}'), sum(xs))):
+    def mk_split(kk):
+        def h(v0: U, v1: U, v2: U, v3: U) -> bool:
+            vs = (v0, v1, v2, v3)
+            for a, v in zip(flat, vs):
+                setv(M, 'Sheet1!' + a, v)
+            ev = Evaluator(M)
+            xs = ints(vs)
+            if not num_is(ev.evaluate('Sheet1!T1'), sum(xs)):
                 return False
-            if not num_is(ev.evaluate(f'Sheet1!Y{kk}'), sum(xs)):
+            if kk == 0:
+                # argument order / scalars instead of a range
+                mx = nval(ev.evaluate('Sheet1!T3'))
+                if not num_is(ev.evaluate('Sheet1!T2'), sum(xs)) or nval(ev.evaluate('Sheet1!T7')) != mx or nval(ev.evaluate('Sheet1!T5')) != len(xs):
+                    return False
+                if xs and not mean_is(ev.evaluate('Sheet1!T6'), xs):
+                    return False
+                if len(xs) == 4:
+                    # blanks given directly as scalars count as 0, so compare only when all four are numbers
+                    return mean_is(ev.evaluate('Sheet1!T8'), xs)
+                return True
+            mx, mn, cnt = nval(ev.evaluate('Sheet1!T3')), nval(ev.evaluate('Sheet1!T4')), nval(ev.evaluate('Sheet1!T5'))
+            if not num_is(ev.evaluate(f'Sheet1!Z{kk}'), sum(xs)) or not num_is(ev.evaluate(f'Sheet1!Y{kk}'), sum(xs)):
                 return False
             if nval(ev.evaluate(f'Sheet1!X{kk}')) != cnt or nval(ev.evaluate(f'Sheet1!W{kk}')) != mx or nval(ev.evaluate(f'Sheet1!V{kk}')) != mn:
                 return False
-        if xs:
-            a1, a2 = ev.evaluate('Sheet1!T6'), ev.evaluate('Sheet1!T7')
-            if not (mean_is(a1, xs) and mean_is(a2, xs)):
+            if xs and not mean_is(ev.evaluate(f'Sheet1!U{kk}'), xs):
                 return False
-        return True
-    h = mk_sig(6, body, U)
-    obs.append(Ob('c14.split+order[2x3]', h, witness=[(1, 2, 3, 4, 5, 6), (None, 2, None, 4, None, None)], timeout=timeout, cost=64, family='c14.split',
-                  bounds='rectangle 2x3 with Optional[int] cells: SUM additive over the 3 splits into two sub-ranges, all aggregates invariant under argument order / split into sub-range arguments',
-                  show=lambda *vs: f'A1:C2 = {vs!r}'))
+            return True
+        return h
+    for kk, nm in ((0, 'argument order'), (1, 'split into rows'), (2, 'split into columns')):
+        obs.append(Ob(f'c14.split+order[2x2,{nm}]', mk_split(kk), witness=[(1, 2, 3, 4), (None, 2, None, 4), (None, None, None, None)], timeout=timeout, cost=150, family='c14.split',
+                      bounds='rectangle 2x2 with Optional[int] cells: ' + ('SUM, MAX, COUNT, AVERAGE invariant under argument order and under replacing the range by scalar arguments' if kk == 0 else
+                                                                          f'{nm}: SUM additive over the two sub-ranges; SUM, COUNT, MAX, MIN, AVERAGE of the two sub-range arguments (both orders) equal those of the whole range'),
+                      show=lambda *vs: f'A1:B2 (row-major) = {vs!r}'))
 
     # permutation of contents within a range: swap two symbolic positions on a second model copy
     M2 = mk(cells)
 
-    def h_perm(v0: U, v1: U, v2: U, v3: U, v4: U, v5: U, i: int, j: int) -> bool:
-        vs = [v0, v1, v2, v3, v4, v5]
-        i, j = concretize(i, 0, 5), concretize(j, 0, 5)
+    def h_perm(v0: U, v1: U, v2: U, v3: U, i: int, j: int) -> bool:
+        vs = [v0, v1, v2, v3]
+        i, j = concretize(i, 0, 3), concretize(j, 0, 3)
         ws = list(vs)
         ws[i], ws[j] = ws[j], ws[i]
         for a, v, w in zip(flat, vs, ws):
             setv(M, 'Sheet1!' + a, v)
             setv(M2, 'Sheet1!' + a, w)
         e1, e2 = Evaluator(M), Evaluator(M2)
-        for z in ('T1', 'T3', 'T4', 'T5', 'T6'):
-            if not ints(vs) and z == 'T6':
+        xs = ints(vs)
+        for z in ('T1', 'T5', 'T6', 'Z1', 'Z2'):
+            if not xs and z == 'T6':
                 continue
-            if not same(e1.evaluate('Sheet1!' + z), e2.evaluate('Sheet1!' + z)) and nval(e1.evaluate('Sheet1!' + z)) != nval(e2.evaluate('Sheet1!' + z)):
+            r1, r2 = e1.evaluate('Sheet1!' + z), e2.evaluate('Sheet1!' + z)
+            if z == 'T6':
+                if not (mean_is(r1, xs) and mean_is(r2, xs)):
+                    return False
+            elif nval(r1) != nval(r2) or nval(r1) is None:
                 return False
         return True
-    obs.append(Ob('c14.permute-contents[2x3]', h_perm, pre=lambda v0, v1, v2, v3, v4, v5, i, j: 0 <= i < j <= 5, witness=[(1, 2, 3, 4, 5, 6, 0, 5), (None, 2, None, 4, None, None, 1, 2)],
-                  timeout=timeout, cost=200, family='c14.split', bounds='swap any two cells (i < j, forked) of a 2x3 range of Optional[int] cells: SUM, MAX, MIN, COUNT, AVERAGE unchanged',
-                  show=lambda *a: f'A1:C2 = {a[:6]!r}, swap positions {a[6]},{a[7]}'))
+    obs.append(Ob('c14.permute-contents[2x2 sum count average]', h_perm, pre=lambda v0, v1, v2, v3, i, j: 0 <= i < j <= 3, witness=[(1, 2, 3, 4, 0, 3), (None, 2, None, 4, 1, 2)],
+                  timeout=timeout, cost=100, family='c14.split', bounds='swap any two cells (i < j, forked) of a 2x2 range of Optional[int] cells: SUM, COUNT, AVERAGE unchanged',
+                  show=lambda *a: f'A1:B2 = {a[:4]!r}, swap positions {a[4]},{a[5]}'))
+
+    MR = mk({'A1': 1, 'B1': 1, 'C1': 1, 'T3': '=MAX(A1:C1)', 'T4': '=MIN(A1:C1)'})
+    MR2 = mk({'A1': 1, 'B1': 1, 'C1': 1, 'T3': '=MAX(A1:C1)', 'T4': '=MIN(A1:C1)'})
+
+    def h_perm2(v0: U, v1: U, v2: U, i: int, j: int) -> bool:
+        vs = [v0, v1, v2]
+        i, j = concretize(i, 0, 2), concretize(j, 0, 2)
+        ws = list(vs)
+        ws[i], ws[j] = ws[j], ws[i]
+        for a, v, w in zip(('A1', 'B1', 'C1'), vs, ws):
+            setv(MR, 'Sheet1!' + a, v)
+            setv(MR2, 'Sheet1!' + a, w)
+        e1, e2 = Evaluator(MR), Evaluator(MR2)
+        return nval(e1.evaluate('Sheet1!T3')) == nval(e2.evaluate('Sheet1!T3')) and nval(e1.evaluate('Sheet1!T4')) == nval(e2.evaluate('Sheet1!T4'))
+    obs.append(Ob('c14.permute-contents[1x3 max min]', h_perm2, pre=lambda v0, v1, v2, i, j: 0 <= i < j <= 2, witness=[(1, 2, 3, 0, 2), (None, 2, None, 0, 1)],
+                  timeout=timeout, cost=60, family='c14.split', bounds='swap any two cells of a 1x3 range of Optional[int] cells: MAX, MIN unchanged',
+                  show=lambda *a: f'A1:C1 = {a[:3]!r}, swap positions {a[3]},{a[4]}'))
     return obs
 
 
@@ -247,14 +293,13 @@ def sumproduct_obs(timeout):
 
 def build(tier, seed):
     thorough = tier == 'thorough'
-    U = Optional[int]
     obs = []
     if thorough:
-        obs += fold_obs([(1, 1), (1, 2), (2, 1), (2, 2), (1, 3), (3, 1)], CV, 'int|blank|text', 1200)
-        obs += fold_obs([(2, 3), (3, 2), (3, 3)], U, 'int|blank', 1800)
+        obs += fold_obs([(1, 1), (1, 2), (2, 1), (2, 2), (1, 3), (3, 1)], 2400)
+        obs += fold_obs([(2, 3), (3, 2)], 2400, with_order=False)
     else:
-        obs += fold_obs([(1, 1), (1, 2), (2, 1), (2, 2)], CV, 'int|blank|text', 400)
-        obs += fold_obs([(2, 3), (3, 2)], U, 'int|blank', 600)
-    obs += split_obs(900)
+        obs += fold_obs([(1, 1), (1, 2), (2, 1), (1, 3)], 600)
+        obs += fold_obs([(2, 2)], 600, with_order=False)
+    obs += split_obs(1800 if thorough else 600, thorough)
     obs += sumproduct_obs(900)
     return obs
